@@ -4,29 +4,32 @@
    key fields that locate them (ExtractItems(WithAppendKeyFields)) and apply the extract
    back under the same manager, without force: it succeeds, changes no field and no record.
 
-   Statements: Proofs/ExtractBack_statements.v.  BOTH STATEMENTS ARE FALSE AS WRITTEN.
+   Statements: Proofs/ExtractBack_statements.v.  THE STATEMENT FOR ARBITRARY STATES IS FALSE AS
+   WRITTEN; THE STATEMENT ALONG HISTORIES HOLDS WITH ONE ADDED HYPOTHESIS (validity of the extract).
 
-   1. Refutation that matters (a REACHABLE state; the statement along histories is refuted too):
-      [extract_apply_back_along_histories_as_stated_refuted], [extract_apply_back_as_stated_refuted].
-      Schema: a map whose entries are maps of numbers (no declared fields).  "a" applies
-      {mmm: {k: {k: 5}}} and owns mmm.k (the key k of the outer map is not a declared field,
-      so the field set records the entry itself) and mmm.k.k; "b" updates mmm.k.k to 6 and
-      takes it over.  "a" now owns the entry mmm.k alone -- a LEAF OF THE RECORD THAT IS NOT A
-      LEAF OF THE OBJECT.  The extracting walker (typed/remove.go), on a map entry that is
-      itself selected, recurses into the entry WITH THE SELECTION OF THE PARENT LEVEL
-      (removeItemsWithSchema(val, w.toRemove, ..); Model/Remove.v transliterates it): the
-      selection {k} is looked up again inside the entry, finds the inner field of the same
-      name, and the extract is {mmm: {k: {k: 6}}} -- it contains mmm.k.k, which "a" does not
-      own.  Every hypothesis of the statements holds (the extract is plain and valid), the
-      apply succeeds and changes no field, but the record of "a" GAINS mmm.k.k.
-      Is this a violation of the property text by the implementation?  If the Go walker
-      behaves as the model says (the harness Driver/Hist.v run_hist_extract can confirm it on
-      this history), YES: "applying back what
-      was extracted for a manager's owned fields ... changes no ownership record" fails -- the
-      manager silently becomes co-owner of a field another manager set.  (With an inner field
-      of ANOTHER name the extract is {mmm: {k: null}}, which is not plain, so the statements
-      say nothing; what the implementation does with that extract is outside this file.)
-   2. The statement for arbitrary states satisfying [state_ok] is false for a second, harmless
+   0. HISTORY (finding F27, repaired).  Before the repair of the extracting walker
+      (typed/remove.go) both statements were refuted at a REACHABLE state.  Schema: a map whose
+      entries are maps of numbers (no declared fields).  "a" applies {mmm: {k: {k: 5}}} and owns
+      mmm.k (the key k of the outer map is not a declared field, so the field set records the
+      entry itself) and mmm.k.k; "b" updates mmm.k.k to 6 and takes it over.  "a" now owns the
+      entry mmm.k alone -- a LEAF OF THE RECORD THAT IS NOT A LEAF OF THE OBJECT.  The walker, on
+      a map entry that is itself selected, recursed into the entry WITH THE SELECTION OF THE
+      PARENT LEVEL: the selection {k} was looked up again inside the entry, found the inner
+      field of the same name, and the extract was {mmm: {k: {k: 6}}}: plain, valid, applied back
+      it made "a" co-owner of mmm.k.k.  The walker now descends with the selection BENEATH the
+      entry (Model/Remove.v follows it): the extract on that witness is {mmm: {k: null}}
+      [former_witness_extract], which is not plain, so the statements say nothing there (and
+      applying that extract back changes no record, by evaluation [former_witness_apply_back]).
+      The two theorems [.._as_stated_refuted] that stated the refutation are gone: they are no
+      longer provable.
+      More generally [ExtractBackSet.plain_extract_leaves_are_leaves]: with the repaired walker a
+      leaf of the record that designates a granular node of the object is extracted as null
+      (nothing is selected beneath it; the key fields ExtractItems adds cannot be what lies
+      beneath it because the record holds the key fields of a member with the member
+      [key_sync]), so IF THE EXTRACT IS A PLAIN VALID OBJECT, EVERY LEAF OF THE RECORD DESIGNATES A
+      LEAF OF THE OBJECT.  The former hypothesis (i) [leaves_are_leaves] of the theorems below
+      has therefore been DROPPED: it follows from the given hypothesis [plain ext] (and validity).
+   1. The statement for arbitrary states satisfying [state_ok] is false for a harmless
       reason [extract_apply_back_needs_prefix_closed]: [state_ok] does not mention the flag
       [mr_applied] [state_ok_set_applied], so the record of an UPDATER with the flag set
       satisfies it; such a record may hold a field of a list member without the member
@@ -34,29 +37,29 @@
       record grows by them.  No such state is reachable [reachable_applied_closed]: not an
       implementation issue.
 
-   REPAIR.  Three conditions on the record S (Proofs/ExtractBackSet.v):
-     (i)   [leaves_are_leaves]  every leaf of S designates a leaf of the live object;
+   REPAIR.  Two conditions on the record S (Proofs/ExtractBackSet.v):
      (ii)  [prefix_closed]      S holds, with a member, every prefix of it that ends in a list
                                 member or in a map key that is not a declared field;
      (iii) [interior_class]     a member of S with another member beneath it is such a path;
    and one on the extract: [conforms .. false ext] (the extract is a valid configuration; the
    given statement only says it is plain).  (ii) and (iii) speak of S and the schema only.
-     [extract_apply_back]                  the statement + (i) (ii) (iii) + validity of ext
-     [extract_apply_back_along_histories]  the statement + (i) + validity of ext ONLY: (ii) and
+   ((i) [leaves_are_leaves]: every leaf of S designates a leaf of the live object -- no longer a
+   hypothesis, see 0.; the definition and its checker [leaves_check] remain, they are used in
+   [extract_apply_back_needs_prefix_closed].)
+     [extract_apply_back]                  the statement + (ii) (iii) + validity of ext
+     [extract_apply_back_along_histories]  the statement + validity of ext ONLY: (ii) and
                                            (iii) hold of every record last written by an Apply at
                                            every reachable state [reachable_applied_closed]
      [extract_apply_back_general], [.._along_histories_general]  the same for both values of
                                            [cfg_return_input_on_noop] (the statements assume false)
-     [extract_apply_back_core]             (Proofs/ExtractBackCore.v) instead of (i)-(iii): the
+     [extract_apply_back_core]             (Proofs/ExtractBackCore.v) instead of (ii)-(iii): the
                                            field set of the extract is the record
      [extract_apply_back_record_condition_necessary]  that last hypothesis is NECESSARY (given
-                                           the others): it is the weakest one; (i)-(iii) are what
-                                           makes it true [ExtractBackSet.extract_field_set]
+                                           the others): it is the weakest one; (ii)-(iii) are what
+                                           makes it true [ExtractBackSet.extract_field_set_plain]
    WEAKEST?  - "field set of ext = record" is necessary and sufficient (previous line).
-     - (i) cannot be dropped: the refutation satisfies every other hypothesis of
-       [extract_apply_back_along_histories] ([.._refuted] proves validity of the extract too).
      - [mr_applied r = true] is necessary (the new record carries the flag; an updater's record
-       fails (ii), see 2.).
+       fails (ii), see 1.).
      - (ii) cannot be dropped from [extract_apply_back]: [extract_apply_back_needs_prefix_closed]
        satisfies every other hypothesis, (i), (iii) and validity of the extract included.
      - validity of the extract: NOT known to be necessary; it is what [op_ok] asks of a
@@ -109,21 +112,23 @@ Section ExtractBack.
   Let s := schema_of c ver.
   Let tr := tr_of c ver.
 
-  (* Both values of the option [cfg_return_input_on_noop]. *)
+  (* Both values of the option [cfg_return_input_on_noop].
+     CHANGED after the F27 repair: the hypothesis (i) [leaves_are_leaves s tr live (mr_set r)]
+     has been dropped here and in the three theorems below; it follows from the other
+     hypotheses [ExtractBackSet.plain_extract_leaves_are_leaves]. *)
   Theorem extract_apply_back_general : forall live mf mgr r,
     setting_ok c R ver -> state_ok c ver live mf ->
     dup_free s tr live = true ->
     mf_get mgr mf = Some r -> mr_applied r = true ->
     let ext := extract s tr true live (ps_leaves (mr_set r)) in
     plain ext = true -> conforms s tr false ext = true ->
-    leaves_are_leaves s tr live (mr_set r) ->
     prefix_closed s tr (mr_set r) -> interior_class s tr (mr_set r) ->
     exists mf'',
       apply_op c (ver, live) (ver, ext) ver mf mgr false =
         UOk ((if cfg_return_input_on_noop c then Some (ver, live) else None), mf'') /\
       same_records mf mf''.
   Proof.
-    intros live mf mgr r Hset Hst Hdf Hget Happl ext Hpl Hcx Hleaf Hclosed Hcls.
+    intros live mf mgr r Hset Hst Hdf Hget Happl ext Hpl Hcx Hclosed Hcls.
     pose proof Hset as (Hni & Hcid & Hok & Hfam & Hpure & Htr & Hkp). fold s tr in Hok, Hfam, Hpure, Htr, Hkp.
     pose proof Hkp as [Hnd Hks].
     pose proof (so_wf c ver live mf Hst) as Hwl.
@@ -134,14 +139,15 @@ Section ExtractBack.
     assert (Hwx : wf_value ext = true) by (rewrite ET; apply remove_items_wf; exact Hwl).
     destruct (to_field_set_ok_family s R tr ext Hok Htr Hfam Hwx (MergeBase.conforms_dup_mono s ext tr Hcx))
       as (set0 & Eset0 & _).
-    pose proof (extract_field_set s R tr live (mr_set r) set0 Hok Hfam Hnd Hks Htr Hwl Hcl Hdf Hrok
-                  Hpres Hsync Hleaf Hclosed Hcls Hpl Hcx Eset0) as Heq.
+    pose proof (extract_field_set_plain s R tr live (mr_set r) set0 Hok Hfam Hnd Hks Htr Hwl Hcl Hdf Hrok
+                  Hpres Hsync Hclosed Hcls Hpl Hcx Eset0) as Heq.
     apply (extract_apply_back_core c R ver live mf mgr r set0 Hset Hst Hdf Hget Happl Hpl Hcx Eset0 Heq).
   Qed.
 
-  (* The statement of Proofs/ExtractBack_statements.v, with FOUR added hypotheses (marked):
-     the extract is a valid configuration, and (i) (ii) (iii) of the header.  Without (i) the
-     statement is false at reachable states, without (ii) at unreachable ones. *)
+  (* The statement of Proofs/ExtractBack_statements.v, with THREE added hypotheses (marked):
+     the extract is a valid configuration, and (ii) (iii) of the header.  Without (ii) the
+     statement is false at unreachable states.
+     CHANGED after the F27 repair: (i) [leaves_are_leaves s tr live (mr_set r)] dropped. *)
   Theorem extract_apply_back : forall live mf mgr r,
     setting_ok c R ver -> state_ok c ver live mf ->
     dup_free s tr live = true ->
@@ -150,39 +156,41 @@ Section ExtractBack.
     let ext := extract s tr true live (ps_leaves (mr_set r)) in
     plain ext = true ->
     conforms s tr false ext = true ->                (* added *)
-    leaves_are_leaves s tr live (mr_set r) ->         (* added: (i) *)
     prefix_closed s tr (mr_set r) ->                  (* added: (ii) *)
     interior_class s tr (mr_set r) ->                 (* added: (iii) *)
     exists mf'',
       apply_op c (ver, live) (ver, ext) ver mf mgr false = UOk (None, mf'') /\
       same_records mf mf''.
   Proof.
-    intros live mf mgr r Hset Hst Hdf Hflag Hget Happl ext Hpl Hcx Hleaf Hclosed Hcls.
-    destruct (extract_apply_back_general live mf mgr r Hset Hst Hdf Hget Happl Hpl Hcx Hleaf Hclosed Hcls)
+    intros live mf mgr r Hset Hst Hdf Hflag Hget Happl ext Hpl Hcx Hclosed Hcls.
+    destruct (extract_apply_back_general live mf mgr r Hset Hst Hdf Hget Happl Hpl Hcx Hclosed Hcls)
       as (mf'' & H & Hs).
     fold ext in H. rewrite Hflag in H. exists mf''. split; assumption.
   Qed.
 
-  (* at every state of every history: (ii) and (iii) are invariants *)
+  (* at every state of every history: (ii) and (iii) are invariants.
+     CHANGED after the F27 repair: (i) [leaves_are_leaves ..] dropped. *)
   Theorem extract_apply_back_along_histories_general : forall ops mgr r,
     setting_ok c R ver -> Forall (op_ok c ver) ops ->
     dup_free s tr (fst (run c ver ops)) = true ->
     mf_get mgr (snd (run c ver ops)) = Some r -> mr_applied r = true ->
     let ext := extract s tr true (fst (run c ver ops)) (ps_leaves (mr_set r)) in
     plain ext = true -> conforms s tr false ext = true ->
-    leaves_are_leaves s tr (fst (run c ver ops)) (mr_set r) ->
     exists mf'',
       apply_op c (ver, fst (run c ver ops)) (ver, ext) ver (snd (run c ver ops)) mgr false =
         UOk ((if cfg_return_input_on_noop c then Some (ver, fst (run c ver ops)) else None), mf'') /\
       same_records (snd (run c ver ops)) mf''.
   Proof.
-    intros ops mgr r Hset Hall Hdf Hget Happl ext Hpl Hcx Hleaf.
+    intros ops mgr r Hset Hall Hdf Hget Happl ext Hpl Hcx.
     destruct (reachable_applied_closed c R ver ops Hset Hall mgr r Hget Happl) as [Hclosed Hcls].
     apply (extract_apply_back_general (fst (run c ver ops)) (snd (run c ver ops)) mgr r Hset
-             (reachable_states_ok c R ver ops Hset Hall) Hdf Hget Happl Hpl Hcx Hleaf Hclosed Hcls).
+             (reachable_states_ok c R ver ops Hset Hall) Hdf Hget Happl Hpl Hcx Hclosed Hcls).
   Qed.
 
-  (* The statement of Proofs/ExtractBack_statements.v, with TWO added hypotheses (marked). *)
+  (* The statement of Proofs/ExtractBack_statements.v, with ONE added hypothesis (marked).
+     CHANGED after the F27 repair: the second added hypothesis, (i)
+     [leaves_are_leaves s tr (fst (run c ver ops)) (mr_set r)], has been dropped: with the
+     repaired walker it follows from [plain ext] and the validity of the extract. *)
   Theorem extract_apply_back_along_histories : forall ops mgr r,
     setting_ok c R ver -> Forall (op_ok c ver) ops ->
     dup_free s tr (fst (run c ver ops)) = true ->
@@ -191,13 +199,12 @@ Section ExtractBack.
     let ext := extract s tr true (fst (run c ver ops)) (ps_leaves (mr_set r)) in
     plain ext = true ->
     conforms s tr false ext = true ->                               (* added *)
-    leaves_are_leaves s tr (fst (run c ver ops)) (mr_set r) ->       (* added: (i) *)
     exists mf'',
       apply_op c (ver, fst (run c ver ops)) (ver, ext) ver (snd (run c ver ops)) mgr false = UOk (None, mf'') /\
       same_records (snd (run c ver ops)) mf''.
   Proof.
-    intros ops mgr r Hset Hall Hdf Hflag Hget Happl ext Hpl Hcx Hleaf.
-    destruct (extract_apply_back_along_histories_general ops mgr r Hset Hall Hdf Hget Happl Hpl Hcx Hleaf)
+    intros ops mgr r Hset Hall Hdf Hflag Hget Happl ext Hpl Hcx.
+    destruct (extract_apply_back_along_histories_general ops mgr r Hset Hall Hdf Hget Happl Hpl Hcx)
       as (mf'' & H & Hs).
     fold ext in H. rewrite Hflag in H. exists mf''. split; assumption.
   Qed.
@@ -269,9 +276,12 @@ Proof.
   exists tr', x. split; [reflexivity|]. unfold leafy. destruct (kind_of s tr' x); try discriminate; exact I.
 Qed.
 
-(* ================= the statements as given are false ================= *)
+(* ================= the witness of the former refutation (F27) ================= *)
 
-Section Refutation.
+(* Before the repair of the walker this state refuted both statements (header, 0.); the two
+   theorems [extract_apply_back_along_histories_as_stated_refuted] and
+   [extract_apply_back_as_stated_refuted] have been deleted: they are no longer provable. *)
+Section FormerWitness.
   Open Scope string_scope.
 
   (* a map of maps of numbers: the entries of both maps are keyed by undeclared names *)
@@ -320,10 +330,6 @@ Section Refutation.
   Definition m_live : value := VMap [("mmm", VMap [("k", VMap [("k", VInt 6)])])].
   Definition m_rec_a : mrec := mkRec (ps_of_paths [[PEField "mmm"; PEField "k"]]) "v1" true.
   Definition m_rec_b : mrec := mkRec (ps_of_paths [[PEField "mmm"; PEField "k"; PEField "k"]]) "v1" false.
-  (* the record of "a" after the extract has been applied back: it has gained mmm.k.k *)
-  Definition m_rec_a' : mrec :=
-    mkRec (ps_of_paths [[PEField "mmm"; PEField "k"]; [PEField "mmm"; PEField "k"; PEField "k"]]) "v1" true.
-
   Lemma m_ops_ok : Forall (op_ok m_config "v1") m_ops.
   Proof. repeat constructor; try (vm_compute; reflexivity); vm_compute; exact I. Qed.
 
@@ -332,72 +338,43 @@ Section Refutation.
 
   Definition m_ext : value := extract m_schema m_rt true m_live (ps_leaves (mr_set m_rec_a)).
 
-  (* the extract contains the inner field, which "a" does not own *)
-  Lemma m_ext_eq : m_ext = m_live.
+  (* the extract no longer contains the inner field, which "a" does not own: the entry mmm.k
+     is selected with nothing selected beneath it, and a granular node is then extracted as
+     null (before the repair: [m_ext = m_live]) *)
+  Lemma former_witness_extract : m_ext = VMap [("mmm", VMap [("k", VNull)])].
   Proof. vm_compute. reflexivity. Qed.
 
-  Lemma m_apply_back :
-    apply_op m_config ("v1", m_live) ("v1", m_ext) "v1" [("a", m_rec_a); ("b", m_rec_b)] "a" false
-    = UOk (None, [("a", m_rec_a'); ("b", m_rec_b)]).
-  Proof. vm_compute. reflexivity. Qed.
-
-  (* Every hypothesis of [extract_apply_back_along_histories] of the statements file holds
-     -- and so does the validity of the extract, the other hypothesis added above -- at a
-     state reached by two admissible operations; the apply succeeds and changes no field, but
-     the record of "a" changes.  Only (i) fails: mmm.k is a leaf of the record and not of the
-     object. *)
-  Theorem extract_apply_back_along_histories_as_stated_refuted :
+  (* Every other hypothesis of [extract_apply_back_along_histories] of the statements file holds
+     at that state, reached by two admissible operations, and (i) still fails there: mmm.k is a
+     leaf of the record and not of the object.  But the extract is not plain: the statements
+     say nothing. *)
+  Theorem former_witness_not_plain :
     setting_ok m_config m_R "v1" /\ Forall (op_ok m_config "v1") m_ops /\
     dup_free (schema_of m_config "v1") (tr_of m_config "v1") (fst (run m_config "v1" m_ops)) = true /\
     cfg_return_input_on_noop m_config = false /\
     mf_get "a" (snd (run m_config "v1" m_ops)) = Some m_rec_a /\ mr_applied m_rec_a = true /\
     let ext := extract (schema_of m_config "v1") (tr_of m_config "v1") true (fst (run m_config "v1" m_ops))
                  (ps_leaves (mr_set m_rec_a)) in
-    plain ext = true /\
-    conforms (schema_of m_config "v1") (tr_of m_config "v1") false ext = true /\
     ~ leaves_are_leaves (schema_of m_config "v1") (tr_of m_config "v1") (fst (run m_config "v1" m_ops))
         (mr_set m_rec_a) /\
-    ~ (exists mf'',
-         apply_op m_config ("v1", fst (run m_config "v1" m_ops)) ("v1", ext) "v1"
-                  (snd (run m_config "v1" m_ops)) "a" false = UOk (None, mf'') /\
-         same_records (snd (run m_config "v1" m_ops)) mf'').
+    plain ext = false.
   Proof.
     split; [exact m_setting_ok|]. split; [exact m_ops_ok|].
     rewrite m_run. cbn [fst snd].
     split; [vm_compute; reflexivity|]. split; [reflexivity|]. split; [reflexivity|]. split; [reflexivity|].
-    cbv zeta. split; [vm_compute; reflexivity|]. split; [vm_compute; reflexivity|]. split.
+    cbv zeta. split.
     - intros H.
       destruct (H [PEField "mmm"; PEField "k"] eq_refl ltac:(vm_compute; reflexivity)) as (t' & x & Hres & Hl).
       vm_compute in Hres. inversion Hres; subst t' x. vm_compute in Hl. exact Hl.
-    - intros (mf'' & H & Hs).
-      change (extract (schema_of m_config "v1") (tr_of m_config "v1") true m_live (ps_leaves (mr_set m_rec_a)))
-        with m_ext in H.
-      rewrite m_apply_back in H. inversion H; subst mf''.
-      specialize (Hs "a"). vm_compute in Hs. destruct Hs as (_ & _ & Hs). discriminate Hs.
+    - vm_compute. reflexivity.
   Qed.
 
-  (* the same state refutes the statement for states satisfying the invariant *)
-  Theorem extract_apply_back_as_stated_refuted :
-    exists live mf mgr r,
-      setting_ok m_config m_R "v1" /\ state_ok m_config "v1" live mf /\
-      dup_free (schema_of m_config "v1") (tr_of m_config "v1") live = true /\
-      cfg_return_input_on_noop m_config = false /\
-      mf_get mgr mf = Some r /\ mr_applied r = true /\
-      let ext := extract (schema_of m_config "v1") (tr_of m_config "v1") true live (ps_leaves (mr_set r)) in
-      plain ext = true /\
-      ~ (exists mf'',
-           apply_op m_config ("v1", live) ("v1", ext) "v1" mf mgr false = UOk (None, mf'') /\
-           same_records mf mf'').
-  Proof.
-    exists m_live, [("a", m_rec_a); ("b", m_rec_b)], "a", m_rec_a.
-    destruct extract_apply_back_along_histories_as_stated_refuted
-      as (Hset & Hall & Hdf & Hflag & Hget & Ha & H).
-    pose proof (reachable_states_ok m_config m_R "v1" m_ops Hset Hall) as Hst.
-    rewrite m_run in *. cbn [fst snd] in *. cbv zeta in H. destruct H as (Hpl & _ & _ & Hno).
-    split; [exact Hset|]. split; [exact Hst|]. split; [exact Hdf|]. split; [exact Hflag|].
-    split; [exact Hget|]. split; [exact Ha|]. cbv zeta. split; [exact Hpl|exact Hno].
-  Qed.
-End Refutation.
+  (* outside the statements: applying that extract back changes no record either *)
+  Example former_witness_apply_back :
+    apply_op m_config ("v1", m_live) ("v1", m_ext) "v1" [("a", m_rec_a); ("b", m_rec_b)] "a" false
+    = UOk (None, [("a", m_rec_a); ("b", m_rec_b)]).
+  Proof. vm_compute. reflexivity. Qed.
+End FormerWitness.
 
 (* ================= (ii) cannot be dropped at states that are not reachable ================= *)
 
@@ -566,10 +543,6 @@ Section Example.
     cbv zeta in T. rewrite Hx in T. apply T.
     - vm_compute. reflexivity.
     - vm_compute. reflexivity.
-    - rewrite hx_run. cbn [fst].
-      apply (leaves_check_sound _ FieldSetLaws.ex_R); try (vm_compute; reflexivity).
-      + exact FieldSetLaws.ex_schema_ok.
-      + exact FieldSetLaws.ex_R_root.
   Qed.
 End Example.
 
